@@ -289,6 +289,25 @@ def gen_direction(rng, sh, cls):
             d = [rng.choice(POW2_VALUES) for _ in range(3)]
             if any(x != 0.0 for x in d):
                 return d
+    if cls in ("near_axis", "near_orth"):
+        # almost parallel / almost orthogonal to one of the shape's own axes (relative 1e-3 .. 1e-9):
+        # tolerance-based shortcuts for "aligned" directions take these for the aligned case
+        axes = shape_axes(sh)
+        if not axes:
+            axes = [[1.0, 0.0, 0.0], [0.0, 1.0, 0.0], [0.0, 0.0, 1.0]]
+        a = unit(rng.choice(axes))
+        while True:
+            w = [rng.gauss(0, 1) for _ in range(3)]
+            dw = dotf(w, a)
+            p_ = [w[i] - dw * a[i] for i in range(3)]
+            if normf(p_) > 1e-3:
+                p_ = unit(p_)
+                break
+        eps_ = 10 ** rng.uniform(-9, -3)
+        sg = rng.choice([1.0, -1.0])
+        if cls == "near_axis":
+            return [sg * a[i] + eps_ * p_[i] for i in range(3)]
+        return [p_[i] + sg * eps_ * a[i] for i in range(3)]
     if cls == "cone_switch" and sh["kind"] == "cone":
         # around the line r*|ld_xy| = h*ld_z where the answer switches between base rim and apex
         phi = rng.uniform(0, 2 * math.pi)
